@@ -235,6 +235,41 @@ func (t *Tracer) Opened(path string, st *store.ImmuStore, fresh bool) error {
 	return nil
 }
 
+// Adopt is the counterpart of Opened for a store that already holds a history the trace knows nothing about (a database
+// created elsewhere, or the state found after a crash): the committed history read back becomes the baseline.
+func (t *Tracer) Adopt(path string, st *store.ImmuStore) error {
+	t.mu.Lock()
+	s := t.st(path)
+	c, p := s.openedC, s.openedP
+	t.mu.Unlock()
+	var hdrs [][sha256.Size]byte
+	alhs := []int{}
+	reloaded := []Event{}
+	for id := uint64(1); id <= p; id++ {
+		h, err := st.ReadTxHeader(id, true, false)
+		if err != nil {
+			return fmt.Errorf("reading tx %d: %w", id, err)
+		}
+		hdrs = append(hdrs, h.Alh())
+		t.mu.Lock()
+		if id <= c {
+			alhs = append(alhs, t.num(h.Alh()))
+		} else {
+			reloaded = append(reloaded, Event{"alh": t.num(h.Alh()), "prev": t.num(h.PrevAlh), "bl": h.BlTxID})
+		}
+		t.mu.Unlock()
+	}
+	t.mu.Lock()
+	defer t.mu.Unlock()
+	s.alh = hdrs
+	s.holding = false
+	t.emit(path, Event{"ev": "Adopt", "alhs": alhs, "reloaded": reloaded})
+	pend := s.pending
+	s.pending = nil
+	t.Events = append(t.Events, pend...)
+	return nil
+}
+
 func (t *Tracer) phys(ev string, kv []interface{}) {
 	if !t.RecordOps {
 		return
